@@ -118,7 +118,17 @@ where
         };
         loop {
             match table.next_row() {
-                Ok(None) => break,
+                Ok(None) => {
+                    // the end of the table is final
+                    for _ in 0..2 {
+                        match table.next_row() {
+                            Ok(None) => {}
+                            Ok(Some(_)) => obs.conv = Some("a row was yielded when next_row was polled again after the end of the table".into()),
+                            Err(e) => obs.conv = Some(format!("{:?} when next_row was polled again after the end of the table", e)),
+                        }
+                    }
+                    break;
+                }
                 Ok(Some(row)) => match conv_row(row, sect, probe) {
                     Ok(r) => {
                         obs.rows.push(r);
